@@ -97,6 +97,7 @@ func (c *Conn) Read(p []byte) (int, error) {
 		if c.failed || (c.F.ReadErrAt > 0 && c.Reads >= c.F.ReadErrAt) ||
 			(c.F.FailAfterRead > 0 && c.BytesRead >= int64(c.F.FailAfterRead)) {
 			c.failed = true
+			c.ReadsAfterEOF++ // a failed transport is an ended input: reading it over and over is spinning as well
 			c.cond.Broadcast()
 			return 0, ErrInjected
 		}
